@@ -140,6 +140,14 @@ def make_sampler(rng, blobs, **kw):
     else:
         def loglike(x):
             return -0.5 * float(np.sum(x ** 2))
+    if kw.pop("vec_buffer", False):
+        bufs = {}
+
+        def loglike(X):   # vectorised, filling and returning ONE reused output array per batch size
+            b = bufs.setdefault(len(X), np.empty(len(X)))
+            b[:] = -0.5 * np.sum(np.asarray(X) ** 2, axis=1)
+            return b
+        kw["vectorize"] = True
     return Sampler(prior_transform=prior, log_likelihood=loglike, n_dim=d, n_particles=kw.pop("n_particles", 16),
                    blobs_dtype=float if blobs else None, **kw)
 
@@ -263,7 +271,7 @@ Eval vm_compute in [
     run.count("posterior_model_cases", len(coq_cases))
 
 
-def check_run(run, s, n_total, what):
+def check_run(run, s, n_total, what, unit_gaussian=False):
     from tempest.tools import effective_sample_size
     beta = float(s.state.get_current("beta"))
     logw, logz = s.state.compute_logw_and_logz(1.0)
@@ -278,6 +286,19 @@ def check_run(run, s, n_total, what):
     hist_beta = [float(b) for b in s.state.get_history("beta")]
     if abs(hist_beta[-1] - beta) > 0:
         run.fail("exit-state", "current beta differs from the last committed beta", **what)
+    # the history the postconditions are computed from holds the likelihood of the particles in it (a stored value that is not the
+    # likelihood of its row makes ESS and evidence statements about another sample)
+    if not unit_gaussian:      # only for the samplers of make_sampler (log-likelihood -|x|^2/2 where finite)
+        return
+    hx, hl = s.state.get_history("x", flat=True), s.state.get_history("logl", flat=True)
+    true_l = -0.5 * np.sum(hx ** 2, axis=1)
+    fin = np.isfinite(hl)
+    if np.any(np.abs(hl[fin] - true_l[fin]) > 1e-9 * (1 + np.abs(true_l[fin]))):
+        k_ = int(np.argmax(np.abs(np.where(fin, hl - true_l, 0.0))))
+        tw = np.exp(true_l - np.max(true_l))
+        run.fail("stored-loglikelihood-not-of-its-row", f"history row {k_}: stored log-likelihood {hl[k_]!r}, likelihood of the stored particle {true_l[k_]!r} "
+                 f"({int(np.sum(np.abs(hl[fin] - true_l[fin]) > 1e-9 * (1 + np.abs(true_l[fin]))))} such rows): ESS and evidence are computed from values that "
+                 f"do not belong to the sample", **what)
 
 
 def boundary_probe(run, tier, rng):
@@ -384,8 +405,9 @@ def sweep(run, tier, rng):
                 cfgs.append(dict(sample=sample, resample=resample, clustering=clustering))
     if tier == "quick":
         cfgs = [cfgs[i] for i in (0, 3, 5, 6)]
+    cfgs += [dict(sample="tpcn", resample="mult", clustering=False, vec_buffer=True), dict(sample="rwm", resample="syst", clustering=True, vec_buffer=True)]
     for i, cfg in enumerate(cfgs):
-        blobs = (i % 2 == 1)
+        blobs = (i % 2 == 1) and not cfg.get("vec_buffer")
         vv = 0.5 if i % 3 == 2 else None
         n_total = rng.choice([48, 96])
         seed = rng.randrange(2 ** 31)
@@ -399,8 +421,19 @@ def sweep(run, tier, rng):
             continue
         run.case(key=("run", i), nontrivial=True)
         run.count(f"cfg={cfg['sample']}/{cfg['resample']}/cl={cfg['clustering']}")
-        check_run(run, s, n_total, what)
+        check_run(run, s, n_total, what, unit_gaussian=True)
         check_posterior(run, s, rng, blobs, tier, what)
+        if i in (0, 1):
+            # run() again on the sampler that has just finished, asking for no more than it already has: the postconditions hold
+            # after every call, not only after the first one
+            for again in (n_total, n_total // 2):
+                try:
+                    s.run(n_total=again, progress=False)
+                except Exception as e:
+                    run.fail("run-raises", f"run(n_total={again}) on a finished sampler raised {type(e).__name__}: {e}", **what)
+                    break
+                run.case(key=("run-again", i, again), nontrivial=True)
+                check_run(run, s, again, dict(what, then_run_again_with_n_total=again), unit_gaussian=True)
         if i == 0:
             x, w, l = s.posterior()
             run.sample(dict(case=what, posterior_len=len(w), pool=len(pool_of(s)[1]), evidence=s.evidence()[0]))
